@@ -92,7 +92,7 @@ PROPS["C17"] = {
     "technique": "exhaustive enumeration of the command x handle x datasize x data grid under ASan with exact-size heap blocks, plus a state-digest oracle for queries",
     "exhaustive": True,
     "rule": "complete enumeration: every SFC_* id of sndfile.h + 4 undefined ids x handle {NULL, read, write, rdwr} on {WAV PCM16, WAV float, WAVEX, RF64, AIFF, CAF, RAW} with and without stored metadata x datasize {0..natural size+8 (every value; for SF_CUES every size within -2..+5 of each whole-cue boundary), 4096, 16385, 65536} x data {NULL, heap block of exactly datasize bytes filled with zeros / 0xFF / random / plausible length fields / lying length fields}; "
-            "NULL handle both in a fresh state and right after a failed open (process-wide log and error populated); each group runs in a forked child that announces the cell before executing it; non-trivial = data != NULL and datasize != the natural struct size (cells are distinct by construction, counted); query commands are additionally checked with a digest of positions, SF_INFO, norm/clip settings, all strings, bext, cart, cues, instrument, channel map and the backing bytes",
+            "NULL handle both in a fresh state and right after a failed open (process-wide log and error populated); each group runs in a forked child that announces the cell before executing it; the state digest includes the stored per-channel peaks (test files have a louder second channel); non-trivial = data != NULL and datasize != the natural struct size (cells are distinct by construction, counted); query commands are additionally checked with a digest of positions, SF_INFO, norm/clip settings, all strings, bext, cart, cues, instrument, channel map and the backing bytes",
     "assumptions": BASE_ASSUME + ["'natural size' per command is the harness' table (sizeof of the documented struct); a zero-size request passes a pointer one past a heap block so that any access is an ASan report",
                                   "state-changing commands are followed by a 4-frame write and sf_close inside the same cell so damage they cause is attributed to that cell"],
     "stages": [
@@ -146,7 +146,7 @@ PROPS["C08"] = {
 PROPS["C09"] = {
     "level": "exploration",
     "rule": "rapidcheck-generated histories (1-25 calls) on handles in mode {read, write, rdwr} over 12 representative formats (one per wrapper family incl. block codecs and non-seekable ones): valid reads/writes/seeks/commands/set_string mixed with each invalid class - wrong-mode read/write, item count not divisible by channels, negative count, unknown whence, whence with the wrong mode bits, out-of-range and negative seek, unknown command id, NULL data, set_string on a read handle / NULL / unknown type, set_chunk NULL / on a format without chunks, and 10 failing sf_open variants (bad mode, NULL SF_INFO, zero major/minor, unknown format, missing file, empty file, directory, VIO table without read, garbage content; and VIO tables lacking the write / read / get_filelen / seek callback the mode needs, two of them on a valid image opened RDWR); a write on a descriptor the kernel refuses (read-only descriptor, /dev/full) must fail, record an error and give sf_strerror (handle) and sf_error_str a real text; "
-            "plus the whole sf_error_number table 0..SFE_MAX_ERROR; raw reads / writes whose byte count is not a whole number of frames; a seek beyond the end of a write / RDWR handle of a block codec (a refusal must leave the digest, file bytes included, unchanged); over-long path names; every failing open preceded by a successful one so that the global error is really set by the failure; 22 representative formats (second group added for the remaining seek / codec wrappers); non-trivial = a history with at least one invalid call followed by a valid one; distinct = hash of (format, mode, ops)",
+            "plus the whole sf_error_number table 0..SFE_MAX_ERROR; raw reads / writes whose byte count is not a whole number of frames; a seek beyond the end of a write / RDWR handle of a block codec (a refusal must leave the digest, file bytes included, unchanged); over-long path names; every failing open preceded by a successful one so that the global error is really set by the failure; 22 representative formats (second group added for the remaining seek / codec wrappers); cue points set on a fresh write handle, then a cue list whose count does not fit its size / an instrument block of the wrong size: refused, and the stored cue points and instrument (now part of the state digest) unchanged; non-trivial = a history with at least one invalid call followed by a valid one; distinct = hash of (format, mode, ops)",
     "assumptions": BASE_ASSUME + ["where an error is 'recorded' follows each call's documentation: sf_error(handle) for read/write/seek, the return value for sf_set_string / sf_set_chunk / sf_command(GET_CURRENT_SF_INFO), sf_error(NULL) for sf_open",
                                   "zero-length reads/writes are not generated (they return before the error is cleared; the statement does not classify them)",
                                   "LeakSanitizer's recoverable check runs after every history; its first report ends leak checking in that worker (a leaked block would be reported again for every later case), so leak failures are reported unshrunk"],
@@ -168,7 +168,7 @@ PROPS["C18"] = {
 PROPS["C13"] = {
     "level": "exploration",
     "rule": "byte order {container default, explicit LITTLE / BIG where sf_format_check accepts it: RIFX, AIFF-C sowt, little-endian CAF} x rapidcheck-generated: container {WAV, WAVEX, RF64, AIFF, CAF} x encoding x channels x 0..200 chunks (counts biased to 19-22, 30-33, 46-49 = the table growth steps) x ids {distinct 4-char, few ids with duplicates, 1-3 chars, mixed} x payload lengths {0..5, odd and 4k+-1, up to 2 KiB, occasional 20-48 KiB} x interleaved string/bext sets x 0..1000 frames x a late sf_set_chunk after audio x optional reserved id x reading part of the audio before the chunk queries; "
-            "the audio through sf_writef_short or, for sample-granular encodings, through sf_write_raw alone; model = ordered list of accepted chunks; after re-open: full iteration visits them exactly once in order (library chunks identified by a twin file without custom chunks), by-id iteration visits exactly the chunks with that id, size within +3 of the payload length, payload equal and zero padded, short-buffer fetches stay inside an exact-size ASan block, audio and strings equal the twin; non-trivial = >= 21 chunks or duplicate ids or an odd payload; distinct = hash of the case",
+            "the audio through sf_writef_short or, for sample-granular encodings, through sf_write_raw alone; model = ordered list of accepted chunks; after re-open: full iteration visits them exactly once in order (library chunks identified by a twin file without custom chunks), by-id iteration visits exactly the chunks with that id, size within +3 of the payload length, payload equal and zero padded, short-buffer fetches stay inside an exact-size ASan block, audio and strings equal the twin; ids the container's own reader has a branch for (AIFF APPL, WAV DISP / MEXT, CAF uuid / umid) with payloads around the 8 KiB skip threshold; non-trivial = >= 21 chunks or duplicate ids or an odd payload; distinct = hash of the case",
     "assumptions": BASE_ASSUME + ["chunk sources and destinations are exact-size heap blocks; the invariant hook runs after every sf_set_chunk",
                                   "three listed findings partition off their own classes by signature (ids shorter than 4 chars, reserved ids, totals above ~48 KiB); everything else is asserted"],
     "stages": [
@@ -191,7 +191,7 @@ PROPS["C12"] = {
 PROPS["C16"] = {
     "level": "exploration",
     "rule": "rapidcheck-generated cases of two kinds on every catalogue entry: (hist) open in mode {read, write, rdwr} by route {virtual I/O, path, descriptor with close_desc 0/1} + 0..20 calls drawn from every allocating command (strings, bext, cart, cues, instrument, chunks, PEAK on/off, channel map, dither, header-update, scale/clip), typed writes and reads (wrong-mode ones fail), seeks, invalid commands, then close; (malformed) a valid file with metadata, mutated by truncation at any relative offset / short header prefix / byte flips / 0x00-0xFF-ed size fields / header garbage, opened for read by each route and exercised; (opens failing under injected I/O faults are enumerated by C15); "
-            "malformed also: exactly one field of one of the first eight chunks damaged, seven extra truncation points in the header area, files with cue points but no instrument, and SD2 pairs written by path whose '._name' resource fork is truncated / flipped / has 16- and 32-bit fields set to boundary values (one case in 25); after every case: LeakSanitizer's recoverable leak check is clean, the set of open descriptors in /proc/self/fd is unchanged, the private TMPDIR is empty, a descriptor given to sf_open_fd is closed iff close_desc, sf_close returned 0 on the non-fault routes; non-trivial = an allocating command was used or an open failed; distinct = hash of the case",
+            "malformed also: exactly one field of one of the first eight chunks damaged, seven extra truncation points in the header area, files with cue points but no instrument, and SD2 pairs written by path whose '._name' resource fork is truncated / flipped / has 16- and 32-bit fields set to boundary values (one case in 25); after every case: LeakSanitizer's recoverable leak check is clean, the set of open descriptors in /proc/self/fd is unchanged, the private TMPDIR is empty, a descriptor given to sf_open_fd is closed iff close_desc, sf_close returned 0 on the non-fault routes; one real-file write history in three is closed with RLIMIT_FSIZE 0 (every further write(2) fails with EFBIG): descriptors and memory must be released all the same; non-trivial = an allocating command was used or an open failed; distinct = hash of the case",
     "assumptions": BASE_ASSUME + ["LeakSanitizer (in-process recoverable check) is the leak oracle; memory still reachable from library statics would not be reported"],
     "stages": [
         {"bin": "c16", "quick": {"cases": 2500, "workers": 16, "budget": 200}, "thorough": {"cases": 20000, "workers": 16, "budget": 1500}},
@@ -203,7 +203,7 @@ PROPS["C15"] = {
     "engine": "enumeration",
     "technique": "systematic fault injection: enumeration of every virtual-I/O callback index x fault kind x persistence for fixed workloads, with containment invariants as the oracle",
     "rule": "42 representative formats (one per container and per codec family) x workloads {write 3 blocks + header update + close, open-read-seek-read-query-close on a file with metadata chunks, rdwr read/append/reread where supported}: (sample-granular formats also sf_write_raw / sf_read_raw, position judged with the geometry the handle reports) the fault-free run counts K callbacks; cells = fault point i in 1..K x kind {zero-length transfer, short transfer, seek failure, length answer +4096 / -17 / huge} x {single-shot, persistent from i}; both tiers enumerate all cells (the whole grid costs a few seconds); each (format, workload) group runs in a forked child that announces a cell before executing it, a hang ends the child through the I/O work budget (300000 callbacks) and is attributed to that cell; "
-            "oracle per cell: every call returns, counts within [0, requested], the internal position moved by exactly the returned count, seek returns target or -1, invariants hook clean, failing open returns NULL with an error, descriptor set unchanged, audio bytes accepted before the fault equal either the snapshot at the fault or the fault-free file, LeakSanitizer clean (per group, per cell on re-run when a group leaks); every group is run with each of the four sample types for the typed transfers; a typed write on a sample-granular encoding must not return more frames than the I/O layer accepted bytes for during the call; non-trivial = the fault was actually consumed (counted; cells are distinct by construction)",
+            "oracle per cell: every call returns, counts within [0, requested], the internal position moved by exactly the returned count, seek returns target or -1, invariants hook clean, failing open returns NULL with an error, descriptor set unchanged, audio bytes accepted before the fault equal either the snapshot at the fault or the fault-free file, LeakSanitizer clean (per group, per cell on re-run when a group leaks); every group is run with each of the four sample types for the typed transfers; a typed write on a sample-granular encoding must not return more frames than the I/O layer accepted bytes for during the call; the files for the read and read/write workloads carry instrument + loops, cue points, broadcast info and a channel map; a fifth variant of the write workload sets metadata only and closes without audio; non-trivial = the fault was actually consumed (counted; cells are distinct by construction)",
     "assumptions": BASE_ASSUME + ["faults stay inside the SF_VIRTUAL_IO contract (returns in [0, requested], seek -1); OS-level errors on descriptors (ENOSPC, EBADF) are not injected in this version",
                                   "'accepted data not corrupted' is checked for the write workload on the audio region behind the header size observed after a fault-free open"],
     "exhaustive": True,
@@ -217,7 +217,7 @@ PROPS["C14"] = {
     "rule": "rapidcheck-generated: kind {read, write} x catalogue entry x channels x N in {0,1,5,6,100,777,3000} x sample seed x mutation {valid, truncated at a generated cut, one byte altered, header bytes overwritten} x leading junk {1..1001} x trailing junk {0..500}; "
             "read: the same byte string opened through virtual I/O, sf_open, sf_open_fd close_desc 0 and 1, a descriptor positioned at offset k of a file with random leading and trailing bytes (WAV/AIFF/AU, valid inputs) and a non-seekable pipe (WAV/AIFF/AU sample-granular encodings, valid inputs); optional extras on valid inputs: a 17-70 KB unknown chunk spliced in before the audio (WAV / AIFF), an AU annotation of 4..70000 bytes, an ID3v2 tag in front of a WAV, a second pipe fed slowly by a forked writer while a 400 us timer signal without SA_RESTART interrupts the reader, the descriptor routes repeated with standard input closed so that the file gets descriptor 0; oracle: same NULL-vs-handle outcome and sf_error number (path/fd/vio), same SF_INFO (pipe: frames and seekable exempt), same first 2000 frames via sf_readf_int, same strings, sf_close 0; "
             "write: the same frames written through virtual I/O, sf_open, sf_open_fd 0/1 and a descriptor positioned at offset k<=L of an existing L-byte container file; oracle: bytes identical (SVX NAME chunk and MPC2K name field masked), the L existing bytes intact and the sound file appended after them; "
-            "both: fcntl on the handed-in descriptor after sf_close says closed iff close_desc, and the set of open descriptors of the process is unchanged; SVX files get, in half of the cases, a path name exactly as long as their NAME chunk (the reader treats that case specially); non-trivial = N >= 1 and at least three routes compared; distinct = hash of the case",
+            "both: fcntl on the handed-in descriptor after sf_close says closed iff close_desc, and the set of open descriptors of the process is unchanged; SVX files get, in half of the cases, a path name exactly as long as their NAME chunk (the reader treats that case specially); in a quarter of the cases the routes are compared through sf_read_raw in pieces until the handle reports the end, instead of one typed read; non-trivial = N >= 1 and at least three routes compared; distinct = hash of the case",
     "assumptions": BASE_ASSUME + ["SD2 is excluded (path-only container with a resource fork)",
                                   "pipe inputs are limited to 60000 bytes so that the whole file fits the pipe buffer and no writer thread is needed",
                                   "the open-descriptor census reads /proc/self/fd"],
